@@ -35,6 +35,7 @@ func omnibus(run *Run, o Omni, visit Visit) {
 		if bi%5 == 1 {
 			opts.Gen.MaxDepth = 3
 		}
+		opts.Gen.DynFocus = bi%9 == 5
 		scs := genScenarios(r, opts)
 		if bi%2 == 0 {
 			// a Terraform-like configuration whose references resolve (multi-byte identifiers included)
